@@ -174,7 +174,16 @@ def run(ctx, eng):
                        'max_inbound_frame_size')
     ctx.ob('ORD.drain', f3.qual, 'input appended before parsing', n > 0 and
            not bad, '; '.join(sorted(set(bad))) or 'ok', node=f3.node)
-    # ---- COH: every write of max_inbound_frame_size refreshes the parser
+    check_coh_frame_size(ctx, eng)
+    check_output_slicing(ctx, eng)
+    ctx.assume('equality of event lists under all chunkings as such is not '
+               'decided; it rests on "the parser state is a function of the '
+               'bytes so far", which the clauses establish structurally')
+
+
+def check_coh_frame_size(ctx, eng):
+    """COH: every write of max_inbound_frame_size refreshes the parser."""
+    m = eng.m
     cls_c = m.cls('connection.H2Connection')
     bad = []
     n = 0
@@ -203,7 +212,11 @@ def run(ctx, eng):
            n > 0 and not bad, '; '.join(sorted(set(bad))) or
            '%d write(s) of max_inbound_frame_size each refresh '
            'incoming_buffer.max_frame_size at once' % n)
-    # ---- data_to_send
+
+
+def check_output_slicing(ctx, eng):
+    """data_to_send(amount) partitions the output."""
+    m = eng.m
     f4 = m.func(H + 'data_to_send')
     bad = []
     kinds = set()
